@@ -1352,8 +1352,12 @@ class ExprCToExpr(ExprReducer):
         void_type = self.types_mngr.void_ptr
 
         if isinstance(src_type, ObjCArray):
-            out = (src.arg, ObjCPtr(src_type.objtype,
-                                    void_type.align, void_type.size))
+            # An array is represented by its address (or, behind a pointer to
+            # array, by the memory cell holding this address)
+            if isinstance(src, ExprMem):
+                src = src.ptr
+            out = (src, ObjCPtr(src_type.objtype,
+                                void_type.align, void_type.size))
         elif isinstance(src, ExprMem):
             out = (src.ptr, ObjCPtr(src_type,
                                     void_type.align, void_type.size))
